@@ -7,7 +7,7 @@ p = props[pid]
 wt = "/tmp/wt-%s%s" % (pid, variant)
 print(f"""You are helping test a verification framework by seeding a realistic regression into a Rust project.
 
-The project is mitnk/cicada, a bash-like Unix shell written in Rust. A scratch git worktree of it is at {wt} (work ONLY there; never touch /repo; the directory /verif is strictly off limits - do not list, read, grep or otherwise look at anything under /verif or under other /tmp/wt-* and /tmp/mx directories: the exercise is only meaningful if you know nothing about how the property is checked; the sandbox has no network: always pass --offline to cargo, and use CARGO_TARGET_DIR={wt}/target).
+The project is mitnk/cicada, a bash-like Unix shell written in Rust. A scratch git worktree of it is at {wt} (work ONLY there; never touch /repo; the directory /verif is strictly off limits - do not list, read, grep or otherwise look at anything under /verif, under /root/.claude, /root/.vp, or under other /tmp/wt-* and /tmp/mx* directories: the exercise is only meaningful if you know nothing about how the property is checked; the sandbox has no network: always pass --offline to cargo, and use CARGO_TARGET_DIR={wt}/target).
 
 Here is a semantic property the shell is supposed to satisfy:
 
